@@ -160,7 +160,8 @@ theorem resolve_equiv (r₁ r₂ : Renames) (h : RenEquiv r₁ r₂) (c : Str) (
 mutual
   theorem checkType_equiv (r₁ r₂ : Renames) (h : RenEquiv r₁ r₂) (c : Str) (imps : List ImportedType) :
       ∀ t : RustType, checkType c r₁ imps t = checkType c r₂ imps t
-    | .generic id ps => by simp only [checkType]; rw [checkTypes_equiv r₁ r₂ h c imps ps]
+    | .generic id ps => by
+      simp only [checkType]; rw [checkTypes_equiv r₁ r₂ h c imps ps, resolve_equiv r₁ r₂ h c imps id]
     | .vec t => by simp only [checkType]; rw [checkType_equiv r₁ r₂ h c imps t]
     | .array t n => by simp only [checkType]; rw [checkType_equiv r₁ r₂ h c imps t]
     | .slice t => by simp only [checkType]; rw [checkType_equiv r₁ r₂ h c imps t]
